@@ -50,7 +50,7 @@ WORKER_TIMEOUT = {"quick": 900, "thorough": 5400}
 
 def gen_cases(tier, seed):
     rnd = random.Random(f"C10:{seed}")
-    n = 1200 if tier == "quick" else 30000
+    n = 2500 if tier == "quick" else 30000
     cases = []
     for k in range(n):
         enc = rnd.choice(["raw", "cseg", "cseg", "cseg", "jpeg"])
